@@ -140,6 +140,11 @@ func (v *EphemeralReferenceValue) StaticType(context ValueStaticTypeContext) Sta
 	// - Actual: [auth(E) &T], Borrow: [&T] -> Static: [&T] (authorization from borrow type)
 	// - Actual: [&R], Borrow: [&{RI}] -> Static: [&R] (type narrowing preserved)
 
+	// The referenced resource might have been moved or destroyed after taking the reference
+	if v.Value == nil {
+		panic(&InvalidatedResourceReferenceError{})
+	}
+
 	v.staticTypeOnce.Do(func() {
 		actualStaticType := v.Value.StaticType(context)
 		innerStaticType := applyTargetTypeAuthorization(
